@@ -60,6 +60,23 @@ type Case struct {
 	// PreCancel: the context is already cancelled when the call is made.
 	PreCancel bool   `json:"preCancel,omitempty"`
 	TarFmt    string `json:"tarFmt,omitempty"`
+	// cross-repository mounting (remote destination): MountFrom answers per blob,
+	// Holds pre-populates sibling repositories of the destination registry
+	UseMount  bool        `json:"useMount,omitempty"`
+	MountFrom []MountSpec `json:"mountFrom,omitempty"`
+	Holds     []HoldSpec  `json:"holds,omitempty"`
+}
+
+// MountSpec is MountFrom's answer for one blob node.
+type MountSpec struct {
+	Node  int      `json:"node"`
+	Repos []string `json:"repos"`
+}
+
+// HoldSpec lists the blobs a sibling repository holds before the copy.
+type HoldSpec struct {
+	Repo  string `json:"repo"`
+	Nodes []int  `json:"nodes"`
 }
 
 const SrcRef = "src-tag"
@@ -264,6 +281,13 @@ func (e *Env) setupDst(ctx context.Context) (*Env, *vt.Fail) {
 		}
 		repo2, _ := newRepo("dst.test", "dst/repo", reg)
 		reg.Lock()
+		for _, h := range c.Holds {
+			rp := reg.Repo(h.Repo)
+			for _, id := range h.Nodes {
+				n := d.Nodes[d.Nodes[id].Canon]
+				rp.Blobs[n.Desc.Digest.String()] = n.Bytes
+			}
+		}
 		reg.Log, reg.Violations = nil, nil
 		reg.Unlock()
 		e.DstReg = reg
@@ -313,6 +337,19 @@ func (e *Env) graphOptions() oras.CopyGraphOptions {
 		o.OnCopySkipped = func(ctx context.Context, desc ocispec.Descriptor) error {
 			return e.Rec.Callback(ctx, "OnCopySkipped", desc)
 		}
+	}
+	if e.C.UseMount {
+		byDigest := map[string][]string{}
+		for _, m := range e.C.MountFrom {
+			byDigest[e.D.Nodes[e.D.Nodes[m.Node].Canon].Desc.Digest.String()] = m.Repos
+		}
+		o.MountFrom = func(ctx context.Context, desc ocispec.Descriptor) ([]string, error) {
+			if err := e.Rec.Callback(ctx, "MountFrom", desc); err != nil {
+				return nil, err
+			}
+			return byDigest[desc.Digest.String()], nil
+		}
+		o.OnMounted = func(ctx context.Context, desc ocispec.Descriptor) error { return e.Rec.Callback(ctx, "OnMounted", desc) }
 	}
 	return o
 }
